@@ -540,6 +540,53 @@ def element_queries(rng, els, per, k):
     return qs
 
 
+def wall_quads(rng, n):
+    """n convex quads, most of them exactly planar (one coordinate constant, so the independent oracle can treat the
+    quad as a surface whatever diagonal splits it), skewed so that the two diagonals differ; and query points
+    whose closest wall point lies inside a quad (all four quarters) at small and large normal offsets"""
+    quads, queries = [], []
+    for _ in range(n):
+        ax = rng.randrange(3)
+        h = rng.choice([0.0, rng.uniform(-2, 2)])
+        o = [rng.uniform(-1, 1), rng.uniform(-1, 1)]
+        a, b = rng.uniform(0.3, 2.0), rng.uniform(0.3, 2.0)
+        sk = rng.uniform(-0.8, 0.8)
+        tp = rng.uniform(0.5, 1.0)   # trapezoid factor of the top side
+        uv = [(0.0, 0.0), (a, 0.0), (sk + a * tp, b), (sk, b)]
+        planar = rng.random() < 0.8
+        quad = []
+        for k, (u, v) in enumerate(uv):
+            w = h if planar else h + rng.uniform(-0.2, 0.2)
+            pt = [o[0] + u, o[1] + v]
+            pt.insert(ax, w)
+            quad.append(pt)
+        if rng.random() < 0.5:
+            quad = [quad[0], quad[3], quad[2], quad[1]]   # opposite orientation
+        if rng.random() < 0.5:
+            quad = quad[1:] + quad[:1]                    # other diagonal becomes (0,2)
+        quads.append(quad)
+        for _q in range(3):
+            s_, t_ = rng.random(), rng.random()
+            p = [(1 - s_) * (1 - t_) * quad[0][i] + s_ * (1 - t_) * quad[1][i] + s_ * t_ * quad[2][i] +
+                 (1 - s_) * t_ * quad[3][i] for i in range(3)]
+            p[ax] += rng.choice([0.0, 1e-3, 0.05, 0.3, -0.05])
+            queries.append(p)
+    return quads, queries
+
+
+def _planar_convex(quad):
+    """exactly planar (a constant coordinate) and strictly convex in that plane"""
+    for ax in range(3):
+        if all(v[ax] == quad[0][ax] for v in quad):
+            pts = [[Fraction(c) for k, c in enumerate(v) if k != ax] for v in quad]
+            sgn = []
+            for k in range(4):
+                p, q, r = pts[k], pts[(k + 1) % 4], pts[(k + 2) % 4]
+                sgn.append((q[0] - p[0]) * (r[1] - q[1]) - (q[1] - p[1]) * (r[0] - q[0]))
+            return all(x > 0 for x in sgn) or all(x < 0 for x in sgn)
+    return False
+
+
 def gen_nearest(rng, tier):
     ops = []
     nsess = 40 if tier == 'quick' else 300
@@ -582,6 +629,12 @@ def gen_nearest(rng, tier):
         mask = 7 if rng.random() < 0.5 else rng.randint(1, 7)
         qs = element_queries(rng, els, per, 8)
         ops.append('walldist %d %d %s' % (per, mask, fhs([c for q in qs for c in q])))
+        if per == 3 and rng.random() < 0.8:
+            # wall QUADS (hex / prism / pyramid boundary faces): ref_phys_local_wall splits each into two triangles
+            quads, qq = wall_quads(rng, rng.randint(1, 6))
+            ops.append('walldistq %d %d %s %s' % (rng.choice([7, 7, rng.randint(1, 7)]), len(quads),
+                                                  fhs([c for q in quads for v in q for c in v]),
+                                                  fhs([c for q in qq for c in q])))
     ops += ['reset', 'nearest2 %s' % fhs([0, 0, 0, 1]), 'wallbuild 2', 'walldist 2 7 %s' % fhs([1, 2, 3]),
             'walldist 3 0', 'walldist 3 9 %s' % fhs([1, 2, 3]), 'walldist 3 1 %s' % fhs([1, 2]), 'nearest2 %s' % fhs([0, 0, 0, 1]), 'dump',
             'wallbuild 3 0', 'wallbuild 4', 'seg %s' % fhs([0] * 5), 'tri %s' % fhs([0] * 9), 'wallbuild 3 0 0',
@@ -649,6 +702,49 @@ def oracle_nearest(ops, impl):
                 if not within(d, best, sc, tol_of(sc.L)):
                     bad.append((i, 'ref_phys_wall_distance gives %r for query %d, brute-force minimum over the wall '
                                 'elements is %r' % (d, q, math.sqrt(float(best)) / (1 << sc.k))))
+                    break
+        elif op == 'walldistq' and r.startswith('ok'):
+            mask, nquad = int(w[1]), int(w[2])
+            f = _floats(w[3:])
+            quads = [[f[12 * j + 3 * v:12 * j + 3 * v + 3] for v in range(4)] for j in range(nquad)]
+            f = f[12 * nquad:]
+            wt = [e for k, e in enumerate(tris) if (mask >> (k % 3)) & 1]
+            wq = [e for k, e in enumerate(quads) if (mask >> (k % 3)) & 1]
+            out = r.split()[1:]
+            if len(out) != len(f) // 3:
+                bad.append((i, 'walldistq printed %d distances for %d query nodes' % (len(out), len(f) // 3)))
+                continue
+            if not all(_planar_convex(q) for q in wq):
+                continue  # a non-planar quad is not a surface: only the model comparison applies
+            for q in range(len(out)):
+                x = f[3 * q:3 * q + 3]
+                if out[q] == 'nan':
+                    bad.append((i, 'wall distance NaN'))
+                    break
+                d = hf(out[q])
+                if not wt and not wq:
+                    if d != REF_DBL_MAX:
+                        bad.append((i, 'no wall element but distance %r' % d))
+                        break
+                    continue
+                sc = Scaler([c for e in wt for v in e for c in v] + [c for e in wq for v in e for c in v] + list(x))
+                if not sc.ok:
+                    continue
+                X = sc.p(x)
+                best = None
+                for e in wt:
+                    vs = [sc.p(v) for v in e]
+                    t2 = tri_d2(vs[0], vs[1], vs[2], X)
+                    best = t2 if best is None or t2 < best else best
+                for e in wq:
+                    vs = [sc.p(v) for v in e]
+                    # a planar convex quad is the union of the triangles of BOTH diagonals: independent of the split
+                    for (a_, b_, c_) in ((0, 1, 2), (0, 2, 3), (0, 1, 3), (1, 2, 3)):
+                        t2 = tri_d2(vs[a_], vs[b_], vs[c_], X)
+                        best = t2 if best is None or t2 < best else best
+                if not within(d, best, sc, tol_of(sc.L)):
+                    bad.append((i, 'ref_phys_wall_distance gives %r for query %d, brute-force minimum over the wall '
+                                   'triangles and planar wall quads is %r' % (d, q, math.sqrt(float(best)) / (1 << sc.k))))
                     break
         elif op in ('nearest2', 'nearest3') and r.startswith('ok') and inserted is not None:
             f = _floats(w[1:])
